@@ -140,6 +140,16 @@ func newRecv(p int64, mode int) *decimal.Decimal {
 	return new(decimal.Decimal).SetPrec(uint(p)).SetMode(decimal.RoundingMode(mode))
 }
 
+// usedRecv is a receiver that has been used before: in half of the cases it holds the result of an inexact
+// operation (stale accuracy, full mantissa), an infinity or a negative zero.
+func usedRecv(r *hx.RNG, p int64, mode int) *decimal.Decimal {
+	z := newRecv(p, mode)
+	if r.Bool() {
+		soil(z, r.Range(1, 4))
+	}
+	return z
+}
+
 func c02Setter(c *hx.Ctx, r *hx.RNG, l hx.Limits) {
 	mode := r.Mode()
 	var what, cls string
@@ -151,7 +161,7 @@ func c02Setter(c *hx.Ctx, r *hx.RNG, l hx.Limits) {
 	case 0: // SetUint64
 		x := gen64(r)
 		p := setterPrec(r, len(fmt.Sprint(x)))
-		z := newRecv(p, mode)
+		z := usedRecv(r, p, mode)
 		pi = hx.Try(func() { z.SetUint64(x) })
 		got = hx.Snapshot(z)
 		o = oracle.Ident(valOfBig(new(big.Int).SetUint64(x), 0))
@@ -165,7 +175,7 @@ func c02Setter(c *hx.Ctx, r *hx.RNG, l hx.Limits) {
 			x = math.MinInt64
 		}
 		p := setterPrec(r, len(fmt.Sprint(x)))
-		z := newRecv(p, mode)
+		z := usedRecv(r, p, mode)
 		pi = hx.Try(func() { z.SetInt64(x) })
 		got = hx.Snapshot(z)
 		o = oracle.Ident(valOfBig(big.NewInt(x), 0))
@@ -193,7 +203,7 @@ func c02Setter(c *hx.Ctx, r *hx.RNG, l hx.Limits) {
 			b.Neg(b)
 		}
 		p := setterPrec(r, int(oracle.Digits(new(big.Int).Abs(b))))
-		z := newRecv(p, mode)
+		z := usedRecv(r, p, mode)
 		pi = hx.Try(func() { z.SetInt(b) })
 		got = hx.Snapshot(z)
 		o = oracle.Ident(valOfBig(b, 0))
@@ -218,7 +228,7 @@ func c02Setter(c *hx.Ctx, r *hx.RNG, l hx.Limits) {
 			q.Neg(q)
 		}
 		p := setterPrec(r, 0)
-		z := newRecv(p, mode)
+		z := usedRecv(r, p, mode)
 		pi = hx.Try(func() { z.SetRat(q) })
 		got = hx.Snapshot(z)
 		if q.IsInt() {
@@ -262,7 +272,7 @@ func c02Setter(c *hx.Ctx, r *hx.RNG, l hx.Limits) {
 			e = []int64{math.MaxInt64, math.MinInt64, math.MaxInt64 - 1000, math.MinInt64 + 1000}[r.Intn(4)]
 		}
 		mant := hx.Mk(v, digitsOf(v)+uint(r.Intn(10)), mode)
-		z := newRecv(int64(r.Range(0, 40)), r.Mode())
+		z := usedRecv(r, int64(r.Range(0, 40)), r.Mode())
 		pi = hx.Try(func() { z.SetMantExp(mant, int(e)) })
 		got = hx.Snapshot(z)
 		if v.Form == oracle.Finite {
@@ -274,7 +284,7 @@ func c02Setter(c *hx.Ctx, r *hx.RNG, l hx.Limits) {
 	default: // base-10 literals through Parse / SetString / UnmarshalText
 		lit := genLiteral10(r, l)
 		p := setterPrec(r, len(lit.digits))
-		z := newRecv(p, mode)
+		z := usedRecv(r, p, mode)
 		via := r.Intn(4)
 		var err error
 		var ok bool = true
